@@ -430,7 +430,7 @@ def finish(prop, tier, seed, info, outs, wall, is_replay):
         'rule': info['rule'],
         'samples': samples if samples else ['(no sample recorded)'],
         'exhaustive': bool(info.get('exhaustive', {}).get(tier, False)),
-        'situations_seen': {k: dict(sorted(c.items(), key=lambda kv: -kv[1])[:60]) for k, c in seen.items()},
+        'situations_seen': {k: dict(sorted(c.items(), key=lambda kv: -kv[1])[:150]) for k, c in seen.items()},
         'situation_counts': {k: len(c) for k, c in seen.items()},
         'monitor_counters': dict(counters),
         'maxima_observed': {k: {'value': v, 'at': at} for k, (v, at) in maxima.items()},
